@@ -80,7 +80,8 @@ class P:
         par = case.meta[0] == "par"
         for a, b in zip(io, mo):
             if ":L[" in a:
-                eq, _ = values.exec_equal(a, b)
+                eq, abst = values.exec_equal(a, b)
+                if abst: return None      # the model abstained (known dependency class): the rest of this history is not comparable
                 if not eq: return "exec result"
             elif a != b: return "parse result"
         return None
